@@ -747,6 +747,33 @@ pub fn run(rng: &mut Rng, n: usize, rep: &mut Report) {
                 }
             }
         }
+        // ---- directed: closing an EMPTY account that carries one of the four blocking flags, with the authority paying the
+        //      fees itself and with a separate fee payer / rent recipient: refused either way; without a flag it closes
+        for (u, us) in s.users.iter().enumerate() {
+            use marginfi_type_crate::types::{ACCOUNT_DISABLED, ACCOUNT_FROZEN, ACCOUNT_IN_FLASHLOAN, ACCOUNT_IN_RECEIVERSHIP};
+            let mut w2 = s.w.clone();
+            let other_payer = w2.add_wallet(1_000_000_000);
+            let mut a = w2.marginfi_account(&us.acct);
+            for bal in a.lending_account.balances.iter_mut() { *bal = bytemuck::Zeroable::zeroed(); }
+            a.account_flags = 0;
+            for (name, flag) in [("frozen", ACCOUNT_FROZEN), ("disabled", ACCOUNT_DISABLED), ("in a flash loan", ACCOUNT_IN_FLASHLOAN), ("in receivership", ACCOUNT_IN_RECEIVERSHIP), ("unflagged", 0)] {
+                for payer in [us.wallet, other_payer] {
+                    let mut w3 = w2.clone();
+                    let mut a3 = a;
+                    a3.account_flags = flag;
+                    w3.set_marginfi_account(&us.acct, &a3);
+                    let r = w3.exec(&ix::close_account(us.acct, us.wallet, payer));
+                    rep.bump(if r.is_ok() { "flag_close_ok" } else { "flag_close_refused" });
+                    if flag != 0 && r.is_ok() {
+                        rep.fail(format!("C16 an account that is {} was CLOSED by its authority ({} paying the fees / receiving the rent)", name, if payer == us.wallet { "the authority itself" } else { "a different signer" }));
+                    }
+                    if flag == 0 && r.is_err() {
+                        rep.fail(format!("C16 an empty, unflagged account could not be closed by its authority ({})", if payer == us.wallet { "paying itself" } else { "separate fee payer" }));
+                    }
+                }
+            }
+            let _ = u;
+        }
         // ---- directed: the standard (mint-token) instructions on a bank that is re-tagged as venue-backed (Kamino / Drift /
         //      Solend: its shares would be venue units): every one of them must be refused outright, on clones
         for (u, us) in s.users.iter().enumerate() {
